@@ -2,6 +2,7 @@
 
 use serde::{Deserialize, Serialize};
 
+use crate::appsim::{self, AppPlan};
 use crate::boardsim::{self, BoardPlan};
 use crate::enginesim::{self, EnginePlan};
 use crate::linesim::{self, LinePlan};
@@ -19,6 +20,8 @@ pub enum Plan {
     Table(TablePlan),
     Rep(RepPlan),
     Stream(StreamPlan),
+    /// the shipped binary's output path under Miri's seeded scheduler (C16)
+    App(AppPlan),
     /// executed by the separate sim_api binary (surf/http-client stack); opaque here
     Api(serde_json::Value),
 }
@@ -56,9 +59,14 @@ const ENGINE_ASSUME: &[&str] = &[
 ];
 const ENGINE_RULE: &str = "one run = one seeded session plan on ONE engine instance: 1..8 cycles of [ucinewgame] position(startpos|fen, moves | follow engine's own bestmove+ponder | broken line) noise go(<any parameter subset/order>) in-search events (stop/quit/isready/debug/corrupted lines at chosen poll node counts, clock jumps, stop queued before go is dequeued) await bestmove; knobs (poll interval, TT capacity, ns per node) re-drawn per run; non-trivial = at least one search ran; distinct = distinct event-log hash (every line fed, parse result, output line with writing thread, park with node/ply/iteration, idle FEN)";
 
+// C16 has a second simulator for the output path of the shipped binary (AppLineSim, sim/src/appsim.rs)
+const C16_REAL: &[&str] = &["inkayaku_uci::console::ConsoleUciRx::start loop + CommandParser", "inkayaku_engine_core::Engine::accept + std::sync::mpsc channel + search thread (Search::idle/go/best_move/search_negamax/search_quiescence/check_messages)", "inkayaku_uci::console::ConsoleUciTx formatting", "inkayaku_board (all of it, through the search)", "AppLineSim share (1 run in 160): engine_app/src/main.rs compiled unchanged into sim_app (include!), its print_ln/print_err behind ConsoleUciTx exactly as main() wires them, real std::io::Stdout, 2..3 real writer threads"];
+const C16_STUB: &[&str] = &["EngineSim share: stdin/stdout closures, OS clock, OS scheduler (lock-step scheduler), GUI, engine_app/src/main.rs wiring mirrored by the harness (as in C07)", "AppLineSim share: OS scheduler (Miri's interpreter owns every thread switch: -Zmiri-seed and -Zmiri-preemption-rate from the plan), the engine (writers emit generated id/uciok/readyok/info/bestmove messages through the real transmitter; no search runs under Miri)"];
+const C16_RULE: &str = "EngineSim share: as C07 (one seeded session plan on ONE engine instance; every output line parsed by the reference grammar, monotone depth/nodes/time, PV legality, bestmove/ponder = head of last PV). AppLineSim share (seed % 160 == 7): one run = one plan (2..3 writer threads with 3..12 messages each, a Miri seed, a preemption rate of 1/3/10/30 %) executed as `cargo +nightly miri run` on sim_app; stdout must be whole lines, equal as a multiset to what the same workload writes from one thread, and every line must parse under the reference grammar; distinct = distinct hash of the output bytes";
+
 pub const CHECKS: &[CheckDef] = &[
     CheckDef { id: "C07", sim: "engine", sim_id: 7, quick_runs: 10000, thorough_runs: 200000, level: "exploration", rule: ENGINE_RULE, assumptions: ENGINE_ASSUME, real: ENGINE_REAL, stubbed: ENGINE_STUB, exit_on_violation: true },
-    CheckDef { id: "C16", sim: "engine", sim_id: 16, quick_runs: 10000, thorough_runs: 200000, level: "exploration", rule: ENGINE_RULE, assumptions: ENGINE_ASSUME, real: ENGINE_REAL, stubbed: ENGINE_STUB, exit_on_violation: true },
+    CheckDef { id: "C16", sim: "engine", sim_id: 16, quick_runs: 10000, thorough_runs: 200000, level: "exploration", rule: C16_RULE, assumptions: ENGINE_ASSUME, real: C16_REAL, stubbed: C16_STUB, exit_on_violation: true },
     CheckDef { id: "C11", sim: "symmetry", sim_id: 11, quick_runs: 12000, thorough_runs: 200000, level: "exploration", rule: "odd runs (BoardSim, focus C11): seeded operation histories in which the static evaluation (through the hook) of every visited position is compared with minus the evaluation of its colour-flipped twin, terminal positions included (mated side negative, stalemate = draw score); even runs (EngineSim twin mode): engine A plays a session of 2..9 `position; go depth 1..3 | mate cycles` and engine B the colour-flipped session (FENs flipped, every move mirrored), each with the C08 exactness oracle on, and the reported score lines (cp / mate N) must be identical cycle by cycle; distinct = distinct event-log hash", assumptions: ENGINE_ASSUME, real: ENGINE_REAL, stubbed: ENGINE_STUB, exit_on_violation: true },
     CheckDef { id: "C10", sim: "draw", sim_id: 10, quick_runs: 16000, thorough_runs: 300000, level: "exploration", rule: "3 of 4 runs (EngineSim): a session of 2..8 cycles `position <imbalanced FEN with half-move clock 0..150> moves <shuffle-biased legal history, 0..24 plies>; go depth 1 searchmoves m | go depth 1..3`; the reported score must lie between the reference depth-d values computed with repetition leaves (>= 3 occurrences within the irreversible-move window, history + line) valued -contempt and +contempt and with a fifty-move leaf value only from clock 100 on (equality when no draw leaf is in reach); 1 of 4 runs (RepSim): seeded hash histories with irreversible-move marks fed to ZobristHistory::set/count_repetitions through the hook and compared with reference occurrence counting, start indices 0..4990; non-trivial = at least one comparison; distinct = distinct event-log hash", assumptions: ENGINE_ASSUME, real: ENGINE_REAL, stubbed: ENGINE_STUB, exit_on_violation: true },
     CheckDef { id: "C17", sim: "stream", sim_id: 17, quick_runs: 100000, thorough_runs: 3000000, level: "exploration", rule: "one run = 1..8 games produced by the reference model (legal random play biased towards castling by both sides, promotions, checks, mates; a quarter of them from-position games with a [FEN] tag), written in the Lichess export layout (tag lines, blank line, one-line movetext with move numbers, N... after comments, {clock/eval/free-text} comments, every result token, 0/1/2 trailing newlines) and read through PgnRawParser::with_chunk_size(chunk in {1,2,3,5,8,64,8192,len-1,len,len+1,random}) over a Read that fragments its answers according to the plan (1-byte reads, short reads, shrinking-then-growing reads, random sizes); verdict = (1) yielded games == generated games (tags as a map, SAN and comments verbatim), (2) same result as one read of the whole input, (3) replaying the yielded SAN through pgn_to_bb reaches the reference final position; source truncation and ErrorKind::Interrupted are observational only; non-trivial = at least one move; distinct = distinct hash of (text, chunk size, read pattern)", assumptions: &["reference model produces legal games and canonical SAN (self-tested); harness PGN writer follows the Lichess export layout", "tag values and comments are ASCII without quotes/braces (non-ASCII text is outside what the byte-wise reader is specified for)", "the property quantifies over fragmentations of a COMPLETE input; truncated sources and Interrupted reads are reported in the evidence, never as a verdict"], real: &["inkayaku_pgn::reader::PgnRawParser (ensure_buffer, tokeniser, tag/move/comment readers, Iterator)", "inkayaku_board::Bitboard::pgn_to_bb + make (replay, as pgn_test/src/main.rs does)"], stubbed: &["the file / zstd stream behind Read (FragReader serves the bytes according to the plan)", "pgn_test binary (its replay loop is reproduced by the harness)"], exit_on_violation: false },
@@ -118,12 +126,18 @@ impl Ctx {
     }
 }
 
+/// one in APP_SHARE runs of the C16 check is an AppLineSim run (about 1.5 s each: Miri start-up)
+pub const APP_SHARE: u64 = 160;
+
 pub fn gen_plan(def: &CheckDef, ctx: &Ctx, seed: u64, thorough: bool) -> Plan {
     match def.sim {
         // C13 also has an engine share: `position ... moves` lists with a bad move at index j must
         // leave the engine on its previous position (read back at the next idle point)
         "board" if def.id == "C13" && seed % 16 == 0 => Plan::Engine(enginesim::gen_plan("C13", seed, thorough, &ctx.pool)),
         "board" => Plan::Board(boardsim::gen_plan(def.id, seed, thorough, &ctx.pool)),
+        // C16 also covers the output path of the shipped binary itself (engine_app/src/main.rs):
+        // several threads inside print_ln at once, interleaved by Miri's seeded scheduler
+        "engine" if def.id == "C16" && seed % APP_SHARE == 7 => Plan::App(appsim::gen_plan(seed, thorough)),
         "engine" => Plan::Engine(enginesim::gen_plan(def.id, seed, thorough, &ctx.pool)),
         "line" => {
             if seed % 8 == 0 {
@@ -166,6 +180,7 @@ pub fn exec_plan(plan: &Plan) -> RunResult {
         Plan::Table(p) => tablesim::exec_table_plan(p),
         Plan::Rep(p) => tablesim::exec_rep_plan(p),
         Plan::Stream(p) => streamsim::exec_plan(p),
+        Plan::App(p) => appsim::exec_plan(p),
         Plan::Api(_) => {
             let mut r = RunResult::default();
             r.foreign = Some(crate::common::Violation::new("HARNESS", "api_plan_in_wrong_binary", "Api plans are executed by sim_api".into()));
@@ -182,6 +197,7 @@ pub fn shrink_candidates(plan: &Plan) -> Vec<Plan> {
         Plan::Table(p) => tablesim::shrink_table(p).into_iter().map(Plan::Table).collect(),
         Plan::Rep(p) => tablesim::shrink_rep(p).into_iter().map(Plan::Rep).collect(),
         Plan::Stream(p) => streamsim::shrink_candidates(p).into_iter().map(Plan::Stream).collect(),
+        Plan::App(p) => appsim::shrink_candidates(p).into_iter().map(Plan::App).collect(),
         Plan::Api(v) => shrink_api(v).into_iter().map(Plan::Api).collect(),
     }
 }
@@ -191,6 +207,7 @@ pub fn plan_size(plan: &Plan) -> usize {
         Plan::Board(p) => p.ops.len(),
         Plan::Line(p) => p.lines.len() + p.move_sweep.1 as usize,
         Plan::Table(p) => p.ops.len(),
+        Plan::App(p) => p.threads.iter().map(|t| t.len()).sum(),
         Plan::Rep(p) => p.seq.len() + p.start_index as usize,
         Plan::Api(v) => v.get("docs").and_then(|d| d.as_array()).map_or(0, |a| a.len()) + v.get("frag").and_then(|d| d.as_array()).map_or(0, |a| a.len()),
         Plan::Stream(p) => p.games.iter().map(|g| 1 + g.sans.len() + g.tags.len()).sum::<usize>() + p.frag.len(),
